@@ -526,6 +526,46 @@ def gen_illtyped(chk, n):
     return progs
 
 
+def gen_mutating_loops(chk, n):
+    """loops over a collection that the loop body changes (keys removed ahead of / behind the current one, items shifted out,
+    the collection emptied or replaced), with the loop variables then USED (displayed, rendered, stored, compared, passed on):
+    what such a loop visits is not specified, but it is a value or a Zn error every time, never a crash of the host"""
+    rng = chk.rng
+    progs = []
+    uses = ["（显示：值）", "令文 = 值之文本", "以表（后增：值）\n    （显示：表）", "令和 = 值 + 1", "如果值 == 1：\n        （显示：“一”）",
+            "（显示：“{}” % 【值】）", "典#“新” = 值", "（回显：值）", "令副 = 值\n    （显示：副）", "（显示：键、值）", "令对 = 【键 = 值】\n    （显示：对）",
+            "输出值", "抛出异常：值"]
+    for _ in range(n):
+        keys = rng.sample(["a", "b", "c", "d", "e"], rng.randrange(2, 6))
+        is_dict = rng.random() < 0.65
+        lines = ["如何回显？\n    输入某\n    输出某\n", "令表 = 【】"]
+        if is_dict:
+            lines.append("令典 = 【%s】" % "，".join("“%s” = %d" % (k, i + 1) for i, k in enumerate(keys)))
+            head = rng.choice(["以键、值遍历典：", "以值遍历典：" if False else "以键、值遍历典："])
+            muts = ["以典（移除：“%s”）" % rng.choice(keys), "以典（移除：“%s”）" % keys[-1], "以典（移除：键）", "典#“%s” = 9" % rng.choice(keys + ["z"]),
+                    "以典（写入：“y”、7）", "典 = 【】", "典 = 【“a” = 5】"]
+        else:
+            lines.append("令典 = 【%s】" % "，".join(str(i + 1) for i in range(len(keys))))
+            head = "以键、值遍历典："
+            muts = ["以典（左移）", "以典（右移）", "以典（后增：8）", "以典（前增：8）", "典 = 【】", "典#1 = 9", "以典（交换：1、%d）" % len(keys)]
+        body = []
+        for _ in range(rng.randrange(1, 4)):
+            m = rng.choice(muts)
+            if rng.random() < 0.4:
+                m = "如果键 == %s：\n        %s" % (("“%s”" % rng.choice(keys)) if is_dict else str(rng.randrange(1, 4)), m)
+            body.append(m)
+        for _ in range(rng.randrange(1, 3)):
+            body.append(rng.choice(uses))
+        rng.shuffle(body)
+        lines.append(head)
+        lines += ["    " + b for b in body]
+        lines.append("（显示：典、表）")
+        if rng.random() < 0.3:
+            lines.append("\n拦截异常：\n    输出其内容")
+        progs.append("\n".join(lines) + "\n")
+    return progs
+
+
 def gen_operator_programs(chk):
     quick = chk.tier == "quick"
     pool = POOL_QUICK if quick else (NUMS_FULL[:12] + TEXTS_FULL[:4] + LISTS_FULL[:3] + DICTS_FULL[:3] + OTHERS)
@@ -981,6 +1021,8 @@ def _run(chk, replay, quick, fnd, cwd):
         progs.append((src, {"op": "operator", "name": "operator", "_rname": "program"}))
     for src in gen_illtyped(chk, 400 if quick else 6000):
         progs.append((src, {"op": "illtyped", "name": "illtyped", "_rname": "program"}))
+    for src in gen_mutating_loops(chk, 150 if quick else 2500):
+        progs.append((src, {"op": "mutating-loop", "name": "mutating-loop", "_rname": "program"}))
     pouts = core.harness("c10", "prog", [{"src": s, "cwd": cwd} for s, _ in progs], timeout_ms=8000, batch_timeout=1200)
     for k, ((src, c), o) in enumerate(zip(progs, pouts)):
         chk.count(["prog", src])
@@ -1004,7 +1046,7 @@ def _run(chk, replay, quick, fnd, cwd):
                             "空, lists, dicts, nested, objects, functions, class refs, exceptions, the receiver itself) + seeded arity 3-4; every "
                             "member name on every other receiver type; every index value read/write; Validate* on random type lists; VM accessor "
                             "scripts; input-variable texts; the same calls as one-call programs through the interpreter; all binary operators "
-                            "over pool pairs; ill-typed generated programs; heap mutation scripts. distinct = distinct case; non-trivial = has "
+                            "over pool pairs; ill-typed generated programs; loops whose body changes the collection they run over and then uses the loop variables; heap mutation scripts. distinct = distinct case; non-trivial = has "
                             "arguments (or is a getter)") % ("reduced" if quick else "full", len(POOL_QUICK if quick else POOL_FULL))
 
 
